@@ -1,15 +1,19 @@
 """C17 - out of memory is reported, not corrupting: allocation discipline."""
 from .. import engine
-from ..rules import alloc
+from ..rules import alloc, clearfill
 
 
 def tu_check(tu):
-    return alloc.analyse_tu(tu)
+    r = alloc.analyse_tu(tu)
+    cf = clearfill.analyse_tu(tu, mode="alloc")
+    r["findings"] = r["findings"] + cf["findings"]
+    r["stats"]["clear_sites"] = cf["stats"]["clear_sites"]
+    return r
 
 
 def run(tier="quick", seed=0, use_cache=True):
     res = engine.Result("C17")
-    res.rules = ["ALLOC-CHECKED", "REALLOC-DISC", "FREE-DISC", "SIZE-BEFORE-ALLOC", "RAW-ALLOC"]
+    res.rules = ["ALLOC-CHECKED", "REALLOC-DISC", "FREE-DISC", "SIZE-BEFORE-ALLOC", "RAW-ALLOC", "EXC-PENDING", "CLEAR-THEN-FILL"]
     res.explanation = (
         "Path-sensitive dataflow over the clang CFG of every function of the "
         "22 translation units that allocates or frees: the result of every "
@@ -21,7 +25,11 @@ def run(tier="quick", seed=0, use_cache=True):
         "member pointer is reset before return; a node's size field is not "
         "raised before the allocation backing it has succeeded; raw malloc/"
         "realloc/free are confined to the wrappers and the confirmed owners; "
-        "the wrappers raise MemoryError. Every failure exit is covered, "
+        "the wrappers raise MemoryError; no path recovers from a failed "
+        "wrapper call and returns success with the MemoryError still pending "
+        "(EXC-PENDING); no operation empties its own container and then "
+        "rebuilds it through calls that allocate (CLEAR-THEN-FILL; state "
+        "loaders excluded). Every failure exit is covered, "
         "whether or not a test can reach it.")
     res.assumptions = [
         "module initialisation and repr are outside 'inside an operation' and not analysed",
@@ -45,6 +53,8 @@ def run(tier="quick", seed=0, use_cache=True):
     res.count("FREE-DISC", tot["free_member_sites"])
     res.count("SIZE-BEFORE-ALLOC", tot["size_store_sites"])
     res.count("RAW-ALLOC", tot["raw_sites"])
+    res.floor("calls that empty the function's own container", tot["clear_sites"], 5 * 22)
+    res.count("CLEAR-THEN-FILL", tot["clear_sites"])
     res.samples = [
         {"rule": "REALLOC-DISC", "obligation": "keys = BTree_Realloc(self->keys, ...) in Bucket_grow: self->keys = keys before every return"},
         {"rule": "ALLOC-CHECKED", "obligation": "next->data = BTree_Malloc(...) in BTree_split is tested before memcpy(next->data, ...)"},
